@@ -23,6 +23,7 @@ CONSTANTS
   GENBAL = 9
   FAILBUDGET = 3
   FRESH = TRUE
+  WANTED = {}
   PREFUND = 0
   PREDEL = 0
   EVENTS = {"Deposit","Withdraw","Delegate","Undelegate","Associate","Dissociate","Slash","NstUpdate","ReleaseHold","EndBlock"}
